@@ -36,7 +36,7 @@ def CedPostC (e e' : CompEditor) : Prop :=
 
 theorem ShInv.setComC {sh : Shared D L} (h : ShInv env G sh) {c : CompEditor} (hp : CedPostC sh.com c) :
     ShInv env G { sh with com := c } := by
-  refine ⟨h.good, hp.1, ?_, h.coupled, h.perPage⟩
+  refine ⟨h.good, hp.1, ?_, h.coupled, h.perPage, h.symOK⟩
   intro x hx
   rcases hp.2 _ hx with hm | hm
   · exact h.word x hm
@@ -70,7 +70,7 @@ theorem insertChars_ok (cs : List Nat) : ∀ {e : CompEditor}, CedInv e → OkAn
 theorem commitOrInsert_ok {sh : Shared D L} (h : ShInv env G sh) (ch : Nat) : StepOK env G (commitOrInsert sh ch) := by
   unfold commitOrInsert
   split
-  · spin_of (h.congr rfl rfl rfl rfl rfl)
+  · spin_of (h.congr rfl rfl rfl rfl rfl rfl)
   · exact stepOK_withCom_absorb h (insertChr_ok h.ced ch)
 
 theorem inputChar_ok {sh : Shared D L} (h : ShInv env G sh) (ev : KeyEvent) : StepOK env G (inputChar sh ev) := by
@@ -91,8 +91,8 @@ theorem chineseFallback_ok {sh : Shared D L} (h : ShInv env G sh) (ev : KeyEvent
 
 /-! ## opening a candidate list -/
 
-theorem selInv_newSymbol (sh sh' : Shared D L) : SelInv env sh' (newSymbol sh) :=
-  ⟨trivial, fun h => by cases h⟩
+theorem selInv_newSymbol (sh sh' : Shared D L) (hy : SymWF sh.symSel) : SelInv env sh' (newSymbol sh) :=
+  ⟨hy, fun h => by cases h⟩
 
 theorem forSelect_clamp {e : CompEditor} {sym : Sym} (h : e.symbolForSelect = some sym) :
     e.pushCursor.clampCursor.inner = e.inner ∧
@@ -156,7 +156,7 @@ theorem newSpecialSymbol_ok {sh : Shared D L} (h : ShInv env G sh) {ch : Nat}
   dsimp only
   rw [hl]
   cases l with
-  | nil => exact stepOK_to hsh _ ⟨trivial, fun _ => .inr hrepl⟩
+  | nil => exact stepOK_to hsh _ ⟨h.symOK, fun _ => .inr hrepl⟩
   | cons a l => exact stepOK_to hsh _ ⟨rfl, fun _ => .inr hrepl⟩
 
 theorem startSelecting_ok {sh : Shared D L} (h : ShInv env G sh) : StepOK env G (startSelecting env sh) := by
@@ -177,18 +177,18 @@ theorem startSelectingOrInputSpace_ok {sh : Shared D L} (h : ShInv env G sh) :
     | syl k => simp only [Sym.isSyl, if_true]; exact newPhrase_ok h hs
     | chr ch => simp only [Sym.isSyl]; exact newSpecialSymbol_ok h hs
   · split
-    · spin_of (h.congr rfl rfl rfl rfl rfl)
+    · spin_of (h.congr rfl rfl rfl rfl rfl rfl)
     · spin_of h
 
 /-! ## `Entering` -/
 
 theorem enteringDefault_ok {sh : Shared D L} (h : ShInv env G sh) (ev : KeyEvent) :
     StepOK env G (enteringDefault env sh ev) := by
-  have hsyl : ∀ l : L, ShInv env G { sh with syl := l } := fun l => h.congr rfl rfl rfl rfl rfl
+  have hsyl : ∀ l : L, ShInv env G { sh with syl := l } := fun l => h.congr rfl rfl rfl rfl rfl rfl
   unfold enteringDefault
   repeat' split
   all_goals first
-    | exact stepOK_to h _ (selInv_newSymbol sh sh)
+    | exact stepOK_to h _ (selInv_newSymbol sh sh h.symOK)
     | exact inputChar_ok h _
     | exact stepOK_withCom_absorb h (insertChars_ok _ h.ced)
     | exact stepOK_withCom_absorb h (insertChr_ok h.ced _)
@@ -213,13 +213,13 @@ theorem enteringCtrlDigit_ok (hE : EnvOK env G) {sh : Shared D L} (h : ShInv env
     StepOK env G (enteringCtrlDigit env sh c) := by
   unfold enteringCtrlDigit
   split
-  · exact stepOK_to h _ (selInv_newSymbol sh sh)
+  · exact stepOK_to h _ (selInv_newSymbol sh sh h.symOK)
   · dsimp only
     split
     · exact learnTrans_ok (learnInRangeNotify_ok hE h _ _ (by omega))
     · split
       · exact learnTrans_ok (learnInRangeNotify_ok hE h _ _ (by omega))
-      · spin_of (h.congr rfl rfl rfl rfl rfl)
+      · spin_of (h.congr rfl rfl rfl rfl rfl rfl)
 
 theorem enteringTabInside_ok (hE : EnvOK env G) {sh : Shared D L} (h : ShInv env G sh) :
     StepOK env G (enteringTabInside env sh) := by
@@ -267,7 +267,7 @@ theorem enteringEsc_ok {sh : Shared D L} (h : ShInv env G sh) : StepOK env G (en
   unfold enteringEsc
   split
   · apply stepOK_spin
-    refine ⟨h.good, ced_clear h.ced, ?_, h.coupled, h.perPage⟩
+    refine ⟨h.good, ced_clear h.ced, ?_, h.coupled, h.perPage, h.symOK⟩
     intro c hc; simp [CompEditor.clear, Composition.clear] at hc
   · spin_of h
 
@@ -290,7 +290,7 @@ theorem enteringNext_ok (hE : EnvOK env G) {sh : Shared D L} (h : ShInv env G sh
     | exact startSelecting_ok h
     | exact startSelectingOrInputSpace_ok h
     | spin_of h
-    | spin_of (h.congr rfl rfl rfl rfl rfl)
+    | spin_of (h.congr rfl rfl rfl rfl rfl rfl)
     | spin_of (h.setComSame (ced_moveToBeginning h.ced) rfl)
     | spin_of (h.setComSame (ced_moveLeft h.ced) rfl)
     | spin_of (h.setComSame (ced_moveRight h.ced) rfl)
@@ -344,7 +344,7 @@ theorem newPhraseSimple_ok {sh : Shared D L} (h : ShInv env G sh) {k : Nat} (h0 
 
 theorem syllableAnswer_ok (hE : EnvOK env G) {sh : Shared D L} (h : ShInv env G sh) (beh : LayoutBeh) :
     StepOK env G (syllableAnswer env sh beh) := by
-  have hsyl : ∀ l : L, ShInv env G { sh with syl := l } := fun l => h.congr rfl rfl rfl rfl rfl
+  have hsyl : ∀ l : L, ShInv env G { sh with syl := l } := fun l => h.congr rfl rfl rfl rfl rfl rfl
   unfold syllableAnswer
   split
   · split
@@ -366,27 +366,27 @@ theorem syllableAnswer_ok (hE : EnvOK env G) {sh : Shared D L} (h : ShInv env G 
       dsimp only
       split
       · exact newPhraseSimple_ok (sh := { sh with com := c, syl := env.clearSyl (env.clearSyl sh.syl) })
-          (hi.congr rfl rfl rfl rfl rfl) c0 c1
-      · to_of (hi.congr rfl rfl rfl rfl rfl)
+          (hi.congr rfl rfl rfl rfl rfl rfl) c0 c1
+      · to_of (hi.congr rfl rfl rfl rfl rfl rfl)
     · to_of (hsyl _)
   · spin_of h
 
 /-- **`EnteringSyllable::next`** -/
 theorem enteringSyllableNext_ok (hE : EnvOK env G) {sh : Shared D L} (h : ShInv env G sh) (ev : KeyEvent) :
     StepOK env G (enteringSyllableNext env sh ev) := by
-  have hsyl : ∀ l : L, ShInv env G { sh with syl := l } := fun l => h.congr rfl rfl rfl rfl rfl
+  have hsyl : ∀ l : L, ShInv env G { sh with syl := l } := fun l => h.congr rfl rfl rfl rfl rfl rfl
   unfold enteringSyllableNext
   repeat' split
   all_goals first
     | spin_of (hsyl _)
     | to_of (hsyl _)
-    | to_of (h.congr rfl rfl rfl rfl rfl)
+    | to_of (h.congr rfl rfl rfl rfl rfl rfl)
     | exact syllableAnswer_ok hE (hsyl _) _
     | skip
   -- Esc with `esc_clear_all_buffer`
   all_goals
     apply stepOK_to
-    · refine ⟨h.good, ced_clear h.ced, ?_, h.coupled, h.perPage⟩
+    · refine ⟨h.good, ced_clear h.ced, ?_, h.coupled, h.perPage, h.symOK⟩
       intro c hc; simp [CompEditor.clear, Composition.clear] at hc
     · trivial
 
@@ -397,7 +397,7 @@ theorem highlightingNext_ok (hE : EnvOK env G) (m : Nat) {sh : Shared D L} (h : 
   unfold highlightingNext
   dsimp only
   split
-  · exact .ok ⟨h.congr rfl rfl rfl rfl rfl, fun s hs => by cases hs; trivial⟩
+  · exact .ok ⟨h.congr rfl rfl rfl rfl rfl rfl, fun s hs => by cases hs; trivial⟩
   · split
     · exact .ok ⟨h, fun s hs => by cases hs⟩
     · split
